@@ -9,7 +9,7 @@ INCS := $(foreach d,common theta tuple hll cpc kll req quantiles fi count sampli
 CXXFLAGS := -std=c++17 $(OPT) -g1 $(SAN) -DDATASKETCHES_VERIF $(INCS) -fno-omit-frame-pointer -Wall -Wno-unused-function -Wno-unused-variable
 SIMH := $(wildcard sim/*.hpp) $(wildcard $(REPO)/*/include/*.hpp) $(wildcard $(REPO)/*/include/*.h)
 
-BINS := store_d store_q store_m agg_theta agg_hll agg_cpc quant addagg shm heap_d heap_q heap_m
+BINS := store_d store_q store_m agg_theta agg_hll agg_cpc quant addagg shm heap_d heap_q heap_m agg_tuple
 
 all: $(addprefix $(BUILD)/,$(BINS))
 
